@@ -453,6 +453,7 @@ Record case := {
   c_fixed : bool;                 (* which revert the implementation under test has (always true after the fix) *)
   c_fs : fs;                      (* initial workspace (relative to the root = []) *)
   c_patch : list N;
+  c_ops : option (list op);       (* what Patch::parse returned on the same text *)
   c_code : N;
   c_changed : list (list N);
   c_after : fs }.
@@ -461,9 +462,34 @@ Definition out_code (o : outcome) : N := match o with Applied _ _ => 0 | Failed 
 Definition out_fs (o : outcome) : fs := match o with Applied f _ => f | Failed f _ => f end.
 Definition out_changed (o : outcome) : list (list N) := match o with Applied _ c => c | Failed _ _ => [] end.
 
+(* the hypothesis of the atomicity theorems, decidable: distinct keys, no entry for the top
+   directory, every proper non-empty prefix of every key is a directory *)
+Fixpoint nodupb (l : list path) : bool :=
+  match l with [] => true | x :: r => negb (existsb (path_eqb x) r) && nodupb r end.
+Fixpoint prefixes_aux (cur : path) (rest : list name) : list path :=
+  match rest with
+  | [] => []
+  | c :: r => match r with [] => [] | _ => (cur ++ [c]) :: prefixes_aux (cur ++ [c]) r end
+  end.
+Definition wf_fsb (f : fs) : bool :=
+  nodupb (map fst f) && negb (existsb (path_eqb []) (map fst f))
+  && forallb (fun qn => forallb (is_dir f) (prefixes_aux [] (fst qn))) f.
+
+Definition hunk_eqb (a b : hunk) : bool :=
+  list_eqb lN_eqb (h_before a) (h_before b) && list_eqb lN_eqb (h_after a) (h_after b).
+Definition op_eqb (a b : op) : bool :=
+  match a, b with
+  | Add p c, Add q d => lN_eqb p q && lN_eqb c d
+  | Del p, Del q => lN_eqb p q
+  | Upd p m hs, Upd q n gs => lN_eqb p q && option_eqb lN_eqb m n && list_eqb hunk_eqb hs gs
+  | _, _ => false
+  end.
+
 Definition check_case (c : case) : bool :=
   let o := apply_patch (c_fixed c) [] (c_fs c) (c_patch c) in
-  (out_code o =? c_code c) && list_eqb lN_eqb (out_changed o) (c_changed c)
+  wf_fsb (c_fs c) && wf_fsb (c_after c)
+  && option_eqb (list_eqb op_eqb) (parse_patch (c_patch c)) (c_ops c)
+  && (out_code o =? c_code c) && list_eqb lN_eqb (out_changed o) (c_changed c)
   && same_listing (out_fs o) (c_after c).
 
 Definition enc_node (qn : path * node) : list N :=
